@@ -66,14 +66,11 @@ def _list_slice(slize: Slice) -> List[Slice]:
         # Return a single-element list, after resolution
         return [_resolve_sliceable(slize.parent)]
 
-    if isinstance(slize.parent, Signal):
-        if slize.step == 1:
-            return [slize]  # Already all good! Just make a one-element list.
-        # Non-unit steps: one single-bit slice per selected index, in selection order
-        return [slize.parent[idx] for idx in _indices(slize)]
+    if isinstance(slize.parent, Signal) and slize.step == 1:
+        return [slize]  # Already all good! Just make a one-element list.
 
     # Do some actual work. Recursively peel off a bit at a time.
-    if width(slize) == 1:
+    if width(slize) == 1 and not isinstance(slize.parent, Signal):
         # Base case: slice is one-bit wide. Reach into the parent signal and grab that bit.
 
         if isinstance(slize.parent, Slice):
